@@ -295,7 +295,7 @@ impl E2Run for Start {
     fn budget(&self, tier: &Tier) -> (u64, u64) {
         match tier {
             Tier::Quick => (150_000, 50),
-            Tier::Thorough => (10_000_000, 3000),
+            Tier::Thorough => (10_000_000, 1200),
         }
     }
 
